@@ -42,7 +42,8 @@ MANIFEST_TEXT = ('Every table of 0..3 (quick) / 0..4 (thorough) rows drawn from 
                  'NarrowPeak, SequenceEntry at lengths around multiples of the FASTA line width, SequenceEntryWithQuality, '
                  'VCF entries, SAMEntry, GTFEntry; incl. int64-range coordinates) x every composition of the rows into '
                  'successive writes incl. empty pieces x {NpBufferedWriter, bnp.open w, gzip target, w-then-append, stream of '
-                 'pieces, ONE write of np.concatenate(pieces)}: piecewise content == single write; pieces are constructed tables and, '
+                 'pieces, ONE write of np.concatenate(pieces)}: piecewise content == single write; pieces are constructed tables, selections '
+                 'table[a:b] of one constructed table (and the reversed table) and, '
                  'for every type, lazily re-read tables (selections of one table / whole tables of their own / mixed, with an empty '
                  'selection at every position); output canonical (ints exactly str(v), VCF POS+1, header once); '
                  'read-back (lazy and eager) equals the table.')
@@ -321,7 +322,7 @@ def check_table(res, tname, row_ids, tier, seed, scratch, deadline):
     if reader_type:
         modes = [(lz, ps) for lz in (False, True) for ps in PIECE_SOURCES]
     else:
-        modes = [(None, None)] + ([('reread', ps) for ps in PIECE_SOURCES] if n >= 1 else [])
+        modes = [(None, None)] + ([('sliced', 'slice')] if n >= 1 else []) + ([('reread', ps) for ps in PIECE_SOURCES] if n >= 1 else [])
     reference = None
     own_cache = {}
     for src_lazy, piece_src in modes:
@@ -335,6 +336,31 @@ def check_table(res, tname, row_ids, tier, seed, scratch, deadline):
             own = lambda pr, lz=src_lazy: vcf_source(pr, lz, typed=tname == 'vcf_typed')
             if piece_src != 'slice':
                 mode_kinds = REREAD_KINDS
+        elif src_lazy == 'sliced':
+            # the pieces are SELECTIONS table[a:b] of one constructed table (how a user splits a table into writes): the
+            # columns handed to the writer are views into the whole table's arrays
+            if reference is None:
+                continue
+            mode_kinds = REREAD_KINDS
+            src = T.build_table('vcf' if tname == 'vcf' else tname, rows)
+            if n >= 2:
+                res.transitions += 1
+                try:
+                    rev = write_with('buffered', tname, [src[::-1]], scratch)
+                    rev_ref = write_with('buffered', tname, [T.build_table('vcf' if tname == 'vcf' else tname, rows[::-1])], scratch)
+                except observe.ObserverError:
+                    raise
+                except Exception as e:
+                    res.fail('write-raises', {'type': tname, 'row_ids': list(row_ids), 'comp': [n], 'empty_at': None, 'kind': 'buffered',
+                                              'tier': tier, 'seed': seed, 'src_lazy': 'sliced', 'piece_src': 'reversed'},
+                             dict(base_feats, kind='buffered', pieces='single', src_lazy='sliced', piece_src='reversed', exc=exc_name(e)),
+                             expected='bytes', observed=repr(e)[:300], tb=tb_string(e))
+                else:
+                    if rev != rev_ref:
+                        res.fail('piecewise-differs-from-single-write', {'type': tname, 'row_ids': list(row_ids), 'comp': [n], 'empty_at': None,
+                                 'kind': 'buffered', 'tier': tier, 'seed': seed, 'src_lazy': 'sliced', 'piece_src': 'reversed'},
+                                 dict(base_feats, kind='buffered', pieces='single', src_lazy='sliced', piece_src='reversed', differs_in='records'),
+                                 expected=rev_ref.decode('latin1')[:600], observed=rev.decode('latin1')[:600])
         elif src_lazy == 'reread':
             if reference is None or not reference:
                 continue            # the constructed single write failed or is not judged: nothing canonical to read back
